@@ -78,6 +78,36 @@ func TestVerifReplayValues(t *testing.T) {
 			}
 		}
 	}
+	// decimal64: values are compared as numbers, whatever the number of fraction digits they are written with
+	for _, c := range []struct {
+		d1   int64
+		p1   uint32
+		d2   int64
+		p2   uint32
+		same bool
+	}{
+		{15, 1, 150, 2, true}, {150, 2, 15, 1, true}, {15, 1, 151, 2, false}, {0, 0, 0, 5, true}, {-15, 1, -1500, 3, true}, {-15, 1, 1500, 3, false},
+		{1, 0, 1000000000000000000, 18, true}, {2, 0, 1000000000000000000, 18, false}, {15, 1, 15, 2, false}, {15, 0, 15, 0, true},
+		{math.MaxInt64, 0, math.MaxInt64, 1, false}, {math.MinInt64, 0, math.MinInt64, 18, false}, {math.MaxInt64, 18, math.MaxInt64, 18, true}, {922337203685477580, 0, 9223372036854775800, 1, true},
+	} {
+		n++
+		mk := func(d int64, p uint32) *sdcpb.TypedValue {
+			return &sdcpb.TypedValue{Value: &sdcpb.TypedValue_DecimalVal{DecimalVal: &sdcpb.Decimal64{Digits: d, Precision: p}}}
+		}
+		in := fmt.Sprintf("v1=decimal64 digits=%d precision=%d,v2=decimal64 digits=%d precision=%d", c.d1, c.p1, c.d2, c.p2)
+		func() {
+			defer func() {
+				if r := recover(); r != nil {
+					fmt.Printf("REPLAY-FAIL fn=%s clause=panic input=%s panic=%v\n", fnEq, in, r)
+				}
+			}()
+			if got := EqualTypedValues(mk(c.d1, c.p1), mk(c.d2, c.p2)); got != c.same {
+				for _, f := range []string{fnEq, "utils.equalDecimal64", "utils.scaleDecimal64"} {
+					fmt.Printf("REPLAY-FAIL fn=%s clause=decimal_kind input=%s why=result %v, the two denote the same number: %v\n", f, in, got, c.same)
+				}
+			}
+		}()
+	}
 	fmt.Printf("REPLAY-CASES fn=%s n=%d\n", fnEq, n)
 	// TypedValueToString on integer boundaries
 	fnStr := "utils.TypedValueToString"
